@@ -128,6 +128,14 @@ func init() {
 			_, msg := catchTargetPanic(fr, args[0])
 			return msg
 		},
+		symPkg + "ZU":   func(fr *frame, args []value) value { return structure{zint{zTermOf(args[0])}} },
+		symPkg + "ZI":   func(fr *frame, args []value) value { return structure{zint{zTermOf(args[0])}} },
+		symPkg + "ZAdd": func(fr *frame, args []value) value { return structure{zint{smt.IAdd(zArg(args[0]), zArg(args[1]))}} },
+		symPkg + "ZSub": func(fr *frame, args []value) value { return structure{zint{smt.ISub(zArg(args[0]), zArg(args[1]))}} },
+		symPkg + "ZMul": func(fr *frame, args []value) value { return structure{zint{smt.IMul(zArg(args[0]), zArg(args[1]))}} },
+		symPkg + "ZLe":  func(fr *frame, args []value) value { return boolVal(smt.ILe(zArg(args[0]), zArg(args[1]))) },
+		symPkg + "ZLt":  func(fr *frame, args []value) value { return boolVal(smt.ILt(zArg(args[0]), zArg(args[1]))) },
+		symPkg + "ZEq":  func(fr *frame, args []value) value { return boolVal(smt.Eq(zArg(args[0]), zArg(args[1]))) },
 		symPkg + "IntMode": func(fr *frame, args []value) value {
 			cur.IntMode = args[0].(bool)
 			return nil
@@ -453,3 +461,19 @@ func hexBytes(v []value, ev *smt.Evaluator) string {
 }
 
 var _ = ssa.NaiveForm
+
+// zint is the engine's representation of sym.Z (exact integer).
+type zint struct{ t *smt.Term }
+
+func zArg(v value) *smt.Term { return v.(structure)[0].(zint).t }
+
+// zTermOf lifts a Go integer (concrete, Int-mode or bit-vector symbolic) to an exact Int term.
+func zTermOf(v value) *smt.Term {
+	if x, ok := v.(sv); ok {
+		if isIntTerm(x.t) {
+			return x.t
+		}
+		unsupported("sym.Z of a bit-vector symbolic value (use sym.IntMode)")
+	}
+	return smt.IntConst(intOfConst(v))
+}
